@@ -187,15 +187,12 @@ Qed.
 (* W5: no panic, but a message is LOST: both arguments have a child "Address"; the second's child replaces
    the first's, whose message "Street required" is in no map of the result. *)
 Definition w5_build : (ve * ve) * heap :=
-  let '(c1, h1) := new_validation_error "Street" "required" false [] in
-  let '(t1, h2) := new_validation_errors None (Some [("Address", c1)]) h1 in
+  (* maps 0..3 are empty caller-made maps: errors and warnings of the two arguments *)
+  let '(c1, h1) := new_validation_error "Street" "required" false [[]; []; []; []] in
+  let '(t1, h2) := new_validation_errors_with_warnings (Some 0) (Some 1) (Some [("Address", c1)]) h1 in
   let '(c2, h3) := new_validation_error "Zip" "invalid" false h2 in
-  let '(w0, h3') := alloc [] h3 in
-  let '(e0, h4) := alloc [] h3' in
-  let '(t2, h5) := new_validation_errors_with_warnings (Some e0) (Some w0) (Some [("Address", c2)]) h4 in
-  (* give t1 a warning map too, so that the pinned code does not panic before reaching the children *)
-  let '(w1, h6) := alloc [] h5 in
-  ((match t1 with Node e _ ks => Node e (Some w1) ks end, t2), h6).
+  let '(t2, h4) := new_validation_errors_with_warnings (Some 2) (Some 3) (Some [("Address", c2)]) h3 in
+  ((t1, t2), h4).
 
 Theorem add_pinned_loses_message_refuted :
   exists (h : heap) (t1 t2 : ve), wf h t1 = true /\ wf h t2 = true /\
